@@ -857,20 +857,17 @@ impl<T: Serialize + for<'de> Deserialize<'de> + Clone + PartialEq + Send + Sync 
             ))
         })?;
 
-        // Calculate checksum
-        let mut hasher = Sha256::new();
-        hasher.update(&snapshot_data);
-        let checksum: [u8; 32] = hasher.finalize().into();
-
-        // Create snapshot header
-        let header = SnapshotHeader {
+        // Create snapshot header; the checksum covers the payload and the header's
+        // own fields (a damaged last_transaction_id would move the counter)
+        let mut header = SnapshotHeader {
             version: WAL_VERSION,
             created_at: current_timestamp(),
             last_transaction_id,
             entry_count: current_state.len() as u64,
             total_size: snapshot_data.len() as u64,
-            checksum,
+            checksum: [0u8; 32],
         };
+        header.checksum = Self::snapshot_checksum(&header, &snapshot_data);
 
         // Write snapshot to temp file
         {
@@ -1433,6 +1430,18 @@ impl<T: Serialize + for<'de> Deserialize<'de> + Clone + PartialEq + Send + Sync 
         Ok(wal_files)
     }
 
+    /// SHA-256 over the snapshot payload bytes and the header fields
+    fn snapshot_checksum(header: &SnapshotHeader, payload: &[u8]) -> [u8; 32] {
+        let mut hasher = Sha256::new();
+        hasher.update(payload);
+        hasher.update([header.version]);
+        hasher.update(header.created_at.to_le_bytes());
+        hasher.update(header.last_transaction_id.to_le_bytes());
+        hasher.update(header.entry_count.to_le_bytes());
+        hasher.update(header.total_size.to_le_bytes());
+        hasher.finalize().into()
+    }
+
     /// Load snapshot from file
     ///
     /// Also returns the SHA-256 of the payload bytes as stored: the checksum in the
@@ -1488,9 +1497,7 @@ impl<T: Serialize + for<'de> Deserialize<'de> + Clone + PartialEq + Send + Sync 
             ))
         })?;
 
-        let mut hasher = Sha256::new();
-        hasher.update(&snapshot_data);
-        let stored_checksum: [u8; 32] = hasher.finalize().into();
+        let stored_checksum = Self::snapshot_checksum(&header, &snapshot_data);
 
         // Deserialize state
         let state: HashMap<String, T> = postcard::from_bytes(&snapshot_data).map_err(|e| {
